@@ -23,7 +23,7 @@ Cur == Trace[l]
 
 \* Pass A: the cache never changes a verdict
 PropertyOK == l > 0 =>
-    CASE Cur.op \in {"verify", "batch"} -> Cur.vc = Cur.vu
+    CASE Cur.op \in {"verify", "batch", "xverify"} -> Cur.vc = Cur.vu       \* ("xverify": a raw message, see the driver)
       [] Cur.op = "combine" -> Cur.okc = Cur.oku /\ Cur.same
       [] OTHER -> TRUE
 \* the uncached verdict is the one the certificate model computes (ties C11 to Cert)
